@@ -19,6 +19,10 @@ def spans {α} (ne : α → α → Bool) (xs : List α) : List Nat :=
 /-- the comparison the property demands: rows differ (byte-exact for strings, all fields jointly for tuples) -/
 def neq {α} [BEq α] (a b : α) : Bool := a != b
 
+/-- the joint column of several equal-length columns: row `i` is the tuple of the fields' `i`-th entries -/
+def jointRows (fs : List (List Int)) (n : Nat) : List (List (Option Int)) :=
+  (List.range n).map (fun i => fs.map (·[i]?))
+
 /-- strictly increasing, starts at 0, ends at the row count `n` -/
 def Wellformed (sp : List Nat) (n : Nat) : Prop :=
   sp.Pairwise (· < ·) ∧ sp.head? = some 0 ∧ sp.getLast? = some n
